@@ -264,6 +264,10 @@ def run_shard(ctx):
             sheets["survey"] = (h[:pos] + [None] * nsp + h[pos:], [r[:pos] + [None] * nsp + r[pos:] for r in rows])
             extra = (fmt, k > 20, nsp)
             ctx.ctr("spreadsheet_layout_cases")
+        elif i % 7 == 5:
+            fmt = "dict_twice"  # the same workbook dict converted a second time: judged on the second result
+            extra = ("twice",)
+            ctx.ctr("same_dict_converted_twice_cases")
         check(ctx, form, common.feature_sig(form, extra=(i % 8,) + extra), sample=(i < 2), fmt=fmt, sheets=sheets)
 
 
